@@ -53,10 +53,10 @@ PENDING_FINDINGS = [
     {"key": "F9", "what": "integral source, floating target: the result is the correctly rounded, not the exact, value "
                           "(e.g. int64 2^53+1 -> double) and is never reported lossy (library convention: floating "
                           "destinations are treated as value-preserving)"},
-    {"key": "F12", "what": "floating common type: the overflow check compares x against the ROUNDED quotient max/mag; for x equal to that "
+    {"key": "C05-FOVF", "what": "floating common type: the overflow check compares x against the ROUNDED quotient max/mag; for x equal to that "
                            "threshold when it was rounded up (1 value per sign and factor) x*mag overflows to inf although neither "
                            "will_conversion_overflow nor is_conversion_lossy reports it (e.g. float 0x1.12e0bep+98 x 10^9)"},
-    {"key": "F11", "what": "will_conversion_truncate<T> / is_conversion_lossy<T> evaluate coerce_in on the common-type value "
+    {"key": "C05-UB", "what": "will_conversion_truncate<T> / is_conversion_lossy<T> evaluate coerce_in on the common-type value "
                            "without having checked overflow first: signed integer overflow (UB) inside the checker for inputs "
                            "that will_conversion_overflow<T> then reports (e.g. int32 2^30 x 3/2 -> int32)"},
 ]
@@ -591,7 +591,7 @@ static i128 lo_of(int bits, int sg) { return sg ? -((i128)1 << (bits - 1)) : 0; 
 static i128 hi_of(int bits, int sg) { return sg ? ((i128)1 << (bits - 1)) - 1 : ((i128)1 << bits) - 1; }
 
 // The checkers run in a forked child, the conversions in the parent: UBSan reports a source location only
-// once per process, and the <T> checkers themselves overflow on some inputs (finding F11); a report raised
+// once per process, and the <T> checkers themselves overflow on some inputs (finding C05-UB); a report raised
 // inside a checker must not mask a later report inside a checker-cleared conversion.
 struct Flags { unsigned char ovf, tr, lossy, ub; };
 static Flags* g_shared = nullptr; static const size_t SHARED_N = 70000;
@@ -956,14 +956,14 @@ def pending_key(v):
         return "F5"
     if ob == "cleared-unsound" and not is_int(r.get("S", "i8")) and not is_int(r.get("T", "i8")) and r.get("mid_is_inf") is True \
             and r.get("exact_product_within_one_rounding_of_max") is True and r.get("target_is_common") is True and r.get("ub") == 0:
-        return "F12"
+        return "C05-FOVF"
     if ob == "value-inexact" and is_int(r.get("S", "f")) and not is_int(r.get("T", "i8")) and r.get("within_4ulp") is True:
         return "F9"
     if ob == "checker-ub" and is_int(r.get("S", "f")) and is_int(r.get("T", "f")) and r.get("exact_overflow") is True \
             and r.get("reported_ovf") is True and r.get("reported_lossy") is True:
-        return "F11"
+        return "C05-UB"
     if ob == "checker-ub-sweep" and r.get("unexplained") == 0:
-        return "F11"
+        return "C05-UB"
     if ob == "cast-unsound" and (r.get("S"), r.get("T")) in F5_PAIRS and r.get("x_is_hi_plus_1") is True:
         return "F5"
     return None
@@ -1071,7 +1071,7 @@ def compare_point(ins, r, mm, b):
     if mm["ovf"] == "ub":
         return False                       # the model's overflow pipeline never evaluates anything undefined
     if mm["trunc"] == "ub":
-        # UB inside the truncation checker (F11): every non-trapping evaluation returns false for integral reps
+        # UB inside the truncation checker (C05-UB): every non-trapping evaluation returns false for integral reps
         if (r["ovf"], r["trunc"], r["lossy"]) != (mm["ovf"], "0", "1" if mm["ovf"] == "1" else "0"):
             return False
     elif (r["ovf"], r["trunc"], r["lossy"]) != (mm["ovf"], mm["trunc"], mm["lossy"]):
